@@ -232,3 +232,334 @@ Proof. rewrite dec_value_S. reflexivity. Qed.
 Lemma dec_tag_int257 f r refs : dec_value (S f) (mkS (to_bits 15%nat 256%N ++ r) refs) =
   bind (s_load_int (mkS r refs) 257%nat) (fun '(z, s2) => Ok (VmInt z, s2)).
 Proof. rewrite dec_value_S. reflexivity. Qed.
+
+(* ------------------------------------------------------------------ *)
+(* 3. continuations                                                    *)
+(* ------------------------------------------------------------------ *)
+
+Definition cont_sub (f : nat) (s0 : slice) : result (vmcont * slice) :=
+  bind (s_load_ref s0) (fun '(c, s1) => bind (dec_cont f (begin_parse c)) (fun '(k, _) => Ok (k, s1))).
+
+Lemma dec_cont_quit f r refs : dec_cont (S f) (mkS (true :: false :: false :: false :: r) refs) =
+  bind (s_load_int (mkS r refs) 32%nat) (fun '(z, s2) => Ok (CQuit z, s2)).
+Proof. reflexivity. Qed.
+
+Lemma dec_cont_quit_exc f r refs : dec_cont (S f) (mkS (true :: false :: false :: true :: r) refs) =
+  Ok (CQuitExc, mkS r refs).
+Proof. reflexivity. Qed.
+
+Lemma dec_cont_pushint f r refs : dec_cont (S f) (mkS (true :: true :: true :: true :: r) refs) =
+  bind (s_load_int (mkS r refs) 32%nat) (fun '(z, s2) =>
+  bind (cont_sub f s2) (fun '(k, s3) => Ok (CPushInt z k, s3))).
+Proof. reflexivity. Qed.
+
+Lemma dec_cont_repeat f r refs : dec_cont (S f) (mkS (true :: false :: true :: false :: false :: r) refs) =
+  bind (s_load_uint (mkS r refs) 63%nat) (fun '(n, s2) =>
+  bind (cont_sub f s2) (fun '(b, s3) => bind (cont_sub f s3) (fun '(a, s4) => Ok (CRepeat n b a, s4)))).
+Proof. reflexivity. Qed.
+
+Lemma dec_cont_until f r refs :
+  dec_cont (S f) (mkS (true :: true :: false :: false :: false :: false :: r) refs) =
+  bind (cont_sub f (mkS r refs)) (fun '(b, s2) => bind (cont_sub f s2) (fun '(a, s3) => Ok (CUntil b a, s3))).
+Proof. reflexivity. Qed.
+
+Lemma dec_cont_again f r refs :
+  dec_cont (S f) (mkS (true :: true :: false :: false :: false :: true :: r) refs) =
+  bind (cont_sub f (mkS r refs)) (fun '(b, s2) => Ok (CAgain b, s2)).
+Proof. reflexivity. Qed.
+
+Lemma dec_cont_while_cond f r refs :
+  dec_cont (S f) (mkS (true :: true :: false :: false :: true :: false :: r) refs) =
+  bind (cont_sub f (mkS r refs)) (fun '(c, s2) => bind (cont_sub f s2) (fun '(b, s3) =>
+  bind (cont_sub f s3) (fun '(a, s4) => Ok (CWhileCond c b a, s4)))).
+Proof. reflexivity. Qed.
+
+Lemma dec_cont_while_body f r refs :
+  dec_cont (S f) (mkS (true :: true :: false :: false :: true :: true :: r) refs) =
+  bind (cont_sub f (mkS r refs)) (fun '(c, s2) => bind (cont_sub f s2) (fun '(b, s3) =>
+  bind (cont_sub f s3) (fun '(a, s4) => Ok (CWhileBody c b a, s4)))).
+Proof. reflexivity. Qed.
+
+Definition cont_rt (k : vmcont) : Prop := forall fuel c tb tr,
+  (cont_depth k < fuel)%nat -> ser_cont k = Ok c ->
+  match c with Cell _ bits refs => dec_cont fuel (mkS (bits ++ tb) (refs ++ tr)) = Ok (k, mkS tb tr) end.
+
+Lemma cont_sub_ok k f c bits refs : cont_rt k -> (cont_depth k < f)%nat -> ser_cont k = Ok c ->
+  cont_sub f (mkS bits (c :: refs)) = Ok (k, mkS bits refs).
+Proof.
+  intros Hrt Hd Hs. unfold cont_sub. cbn [s_load_ref s_refs s_bits bind].
+  specialize (Hrt f c [] [] Hd Hs). destruct c as [t cb cr]. cbn [begin_parse].
+  rewrite !app_nil_r in Hrt. rewrite Hrt. reflexivity.
+Qed.
+
+Lemma load_int_n n v tb r : (1 <= n)%nat -> in_int (Z.of_nat n) v = true ->
+  s_load_int (mkS (enc n v ++ tb) r) n = Ok (v, mkS tb r).
+Proof. apply load_int_app_n. Qed.
+
+Theorem cont_roundtrip : forall k, cont_rt k.
+Proof.
+  induction k as [code| |v next IHn|count body IHb after IHa|body IHb after IHa|body IHb
+                 |c IHc b0 IHb a IHa|c IHc b0 IHb a IHa];
+    intros fuel cc tb tr Hd H; cbn [ser_cont] in H; cbn [cont_depth] in Hd;
+    (destruct fuel as [|f]; [lia|]).
+  - vs_bind H b Hb. vs_shape Hb. vs_bind H b1 Hb1. apply store_int_eq in Hb1. destruct Hb1 as (-> & _ & Hr).
+    vs_shape H. vs_norm. rewrite dec_cont_quit.
+    change (Z.to_nat 32) with 32%nat. rewrite load_int_app_n by (lia || exact Hr). reflexivity.
+  - vs_bind H b Hb. vs_shape Hb. vs_shape H. vs_norm. apply dec_cont_quit_exc.
+  - vs_bind H b Hb. vs_shape Hb. vs_bind H b1 Hb1. apply store_int_eq in Hb1. destruct Hb1 as (-> & _ & Hr).
+    vs_bind H c1 Hc1. vs_bind H b2 Hb2. vs_shape Hb2. vs_shape H. vs_norm. rewrite dec_cont_pushint.
+    change (Z.to_nat 32) with 32%nat. rewrite load_int_app_n by (lia || exact Hr). cbn [bind].
+    rewrite (cont_sub_ok next) by (assumption || lia). reflexivity.
+  - vs_bind H b Hb. vs_shape Hb. vs_bind H b1 Hb1. apply store_uint_eq in Hb1. destruct Hb1 as (-> & _ & Hr).
+    vs_bind H c1 Hc1. vs_bind H b2 Hb2. vs_shape Hb2.
+    vs_bind H c2 Hc2. vs_bind H b3 Hb3. vs_shape Hb3. vs_shape H. vs_norm. rewrite dec_cont_repeat.
+    change (Z.to_nat 63) with 63%nat. rewrite load_uint_app_n by (lia || exact Hr). cbn [bind].
+    rewrite (cont_sub_ok body) by (assumption || lia). cbn [bind].
+    rewrite (cont_sub_ok after) by (assumption || lia). reflexivity.
+  - vs_bind H b Hb. vs_shape Hb.
+    vs_bind H c1 Hc1. vs_bind H b2 Hb2. vs_shape Hb2.
+    vs_bind H c2 Hc2. vs_bind H b3 Hb3. vs_shape Hb3. vs_shape H. vs_norm. rewrite dec_cont_until.
+    rewrite (cont_sub_ok body) by (assumption || lia). cbn [bind].
+    rewrite (cont_sub_ok after) by (assumption || lia). reflexivity.
+  - vs_bind H b Hb. vs_shape Hb.
+    vs_bind H c1 Hc1. vs_bind H b2 Hb2. vs_shape Hb2. vs_shape H. vs_norm. rewrite dec_cont_again.
+    rewrite (cont_sub_ok body) by (assumption || lia). reflexivity.
+  - vs_bind H b Hb. vs_shape Hb.
+    vs_bind H c1 Hc1. vs_bind H b2 Hb2. vs_shape Hb2.
+    vs_bind H c2 Hc2. vs_bind H b3 Hb3. vs_shape Hb3.
+    vs_bind H c3 Hc3. vs_bind H b4 Hb4. vs_shape Hb4. vs_shape H. vs_norm. rewrite dec_cont_while_cond.
+    rewrite (cont_sub_ok c) by (assumption || lia). cbn [bind].
+    rewrite (cont_sub_ok b0) by (assumption || lia). cbn [bind].
+    rewrite (cont_sub_ok a) by (assumption || lia). reflexivity.
+  - vs_bind H b Hb. vs_shape Hb.
+    vs_bind H c1 Hc1. vs_bind H b2 Hb2. vs_shape Hb2.
+    vs_bind H c2 Hc2. vs_bind H b3 Hb3. vs_shape Hb3.
+    vs_bind H c3 Hc3. vs_bind H b4 Hb4. vs_shape Hb4. vs_shape H. vs_norm. rewrite dec_cont_while_body.
+    rewrite (cont_sub_ok c) by (assumption || lia). cbn [bind].
+    rewrite (cont_sub_ok b0) by (assumption || lia). cbn [bind].
+    rewrite (cont_sub_ok a) by (assumption || lia). reflexivity.
+Qed.
+
+(* ------------------------------------------------------------------ *)
+(* 4. VmCellSlice                                                      *)
+(* ------------------------------------------------------------------ *)
+
+Lemma slice_full {A} (l : list A) : Bits.slice l (Z.to_nat 0) (Z.to_nat (Z.of_nat (length l))) = l.
+Proof.
+  unfold Bits.slice. rewrite Nat2Z.id. change (Z.to_nat 0) with O.
+  rewrite Nat.sub_0_r. cbn [skipn]. apply firstn_all.
+Qed.
+
+Lemma cellslice_rt bits refs cs tb tr : ser_cellslice bits refs = Ok cs ->
+  match cs with Cell _ cb cr =>
+    dec_cellslice (mkS (cb ++ tb) (cr ++ tr)) = Ok (VmSliceV bits refs, mkS tb tr) end.
+Proof.
+  unfold ser_cellslice. intros H.
+  vs_bind H inner Hi. vs_bind Hi b0 Hb0. apply store_slice_eq in Hb0. subst b0. vs_shape Hi.
+  vs_bind H b1 Hb1. vs_shape Hb1.
+  vs_bind H b2 Hb2. apply store_uint_eq in Hb2. destruct Hb2 as (-> & _ & Hr2).
+  vs_bind H b3 Hb3. apply store_uint_eq in Hb3. destruct Hb3 as (-> & _ & Hr3).
+  vs_bind H b4 Hb4. apply store_uint_eq in Hb4. destruct Hb4 as (-> & _ & Hr4).
+  vs_bind H b5 Hb5. apply store_uint_eq in Hb5. destruct Hb5 as (-> & _ & Hr5).
+  vs_shape H. vs_norm. unfold dec_cellslice. cbn [s_load_ref s_refs s_bits bind].
+  change (Z.to_nat 10) with 10%nat. change (Z.to_nat 3) with 3%nat.
+  rewrite load_uint_app_n by (lia || exact Hr2). cbn [bind].
+  rewrite load_uint_app_n by (lia || exact Hr3). cbn [bind].
+  destruct (Z.ltb_spec (Z.of_nat (length bits)) 0) as [Hlt|_]; [lia|].
+  rewrite load_uint_app_n by (lia || exact Hr4). cbn [bind].
+  rewrite load_uint_app_n by (lia || exact Hr5). cbn [bind].
+  destruct (Z.ltb_spec (Z.of_nat (length refs)) 0) as [Hlt|_]; [lia|].
+  rewrite !slice_full. reflexivity.
+Qed.
+
+(* ------------------------------------------------------------------ *)
+(* 5. tuples                                                           *)
+(* ------------------------------------------------------------------ *)
+
+Lemma list_snoc_cases {A} (l : list A) : l = [] \/ exists init last, l = init ++ [last].
+Proof. destruct l as [|x l] using rev_ind; [left; reflexivity|right; eauto]. Qed.
+
+Section TupleRT.
+  Variable sv : vmval -> result cell.
+  Variable dv : slice -> result (vmval * slice).
+
+  Definition elem_rt (x : vmval) : Prop :=
+    forall cx, sv x = Ok cx -> exists s', dv (begin_parse cx) = Ok (x, s').
+
+  Lemma tuple_rt : forall n l c tb tr, (length l < n)%nat -> (forall x, In x l -> elem_rt x) ->
+    ser_tuple_f sv n l = Ok c ->
+    match c with Cell _ bits refs =>
+      bits = [] /\ dec_tuple_f dv n (mkS tb (refs ++ tr)) (length l) = Ok (l, mkS tb tr) end.
+  Proof.
+    induction n as [|n IH]; intros l c tb tr Hlen Hel H; [lia|].
+    destruct (list_snoc_cases l) as [->|(init & last & ->)].
+    - cbn in H. injection H as <-. split; reflexivity.
+    - cbn [ser_tuple_f] in H. rewrite rev_app_distr in H. cbn [rev app] in H.
+      rewrite rev_involutive in H.
+      rewrite app_length in Hlen |- *. cbn [length] in Hlen |- *.
+      assert (Hlast : elem_rt last) by (apply Hel, in_or_app; right; left; reflexivity).
+      vs_bind H cref Hcref. vs_bind H b1 Hb1. vs_bind H cl Hcl. vs_bind H b2 Hb2. vs_shape Hb2. vs_shape H.
+      destruct (Hlast cl Hcl) as (sl & Hdl).
+      destruct init as [|x [|y init']].
+      + injection Hcref as <-. apply store_cell_eq in Hb1. subst b1. vs_norm.
+        split; [reflexivity|]. cbn [length Nat.add dec_tuple_f bind s_load_ref s_refs s_bits].
+        rewrite Hdl. reflexivity.
+      + assert (Hx : elem_rt x) by (apply Hel; left; reflexivity).
+        vs_bind Hcref cx Hcx. vs_bind Hcref b0 Hb0. vs_shape Hb0. vs_shape Hcref.
+        apply store_cell_eq in Hb1. subst b1. vs_norm. split; [reflexivity|].
+        destruct (Hx cx Hcx) as (sx & Hdx).
+        cbn [length Nat.add dec_tuple_f bind s_load_ref s_refs s_bits].
+        rewrite Hdx. cbn [bind s_load_ref s_refs s_bits]. rewrite Hdl. reflexivity.
+      + vs_bind Hcref ct Hct. vs_bind Hcref b0 Hb0. vs_shape Hb0. vs_shape Hcref.
+        apply store_cell_eq in Hb1. subst b1. vs_norm. split; [reflexivity|].
+        assert (Hlen' : (length (x :: y :: init') < n)%nat) by (cbn [length] in *; lia).
+        assert (Hel' : forall z, In z (x :: y :: init') -> elem_rt z)
+          by (intros z Hz; apply Hel, in_or_app; left; exact Hz).
+        specialize (IH (x :: y :: init') ct [] [] Hlen' Hel' Hct).
+        destruct ct as [tt ctb ctr]. destruct IH as (-> & IH). rewrite app_nil_r in IH.
+        replace (length (x :: y :: init') + 1)%nat with (S (length (x :: y :: init'))) by lia.
+        cbn [dec_tuple_f]. cbn [length] in IH |- *.
+        cbn [bind s_load_ref s_refs s_bits begin_parse].
+        rewrite IH. cbn [bind s_load_ref s_refs s_bits]. rewrite Hdl. reflexivity.
+  Qed.
+End TupleRT.
+
+(* ------------------------------------------------------------------ *)
+(* 6. single values                                                    *)
+(* ------------------------------------------------------------------ *)
+
+Theorem value_roundtrip : forall v fuel c tb tr,
+  (vm_depth v < fuel)%nat -> ser_value fuel v = Ok c ->
+  match c with Cell _ bits refs => dec_value fuel (mkS (bits ++ tb) (refs ++ tr)) = Ok (v, mkS tb tr) end.
+Proof.
+  intros v fuel. revert v.
+  induction fuel as [|f IH]; intros v c tb tr Hd H; [lia|].
+  rewrite ser_value_S in H.
+  destruct v as [|z|c0|bits refs|bits refs|l|k].
+  - (* VmNull *)
+    vs_bind H b Hb. vs_shape Hb. vs_shape H. vs_norm. apply dec_tag0.
+  - (* VmInt *)
+    destruct (is_tiny z).
+    + vs_bind H b Hb. vs_shape Hb. vs_bind H b1 Hb1. apply store_int_eq in Hb1. destruct Hb1 as (-> & _ & Hr).
+      vs_shape H. vs_norm. rewrite dec_tag1.
+      change (Z.to_nat 64) with 64%nat. rewrite load_int_app_n by (lia || exact Hr). reflexivity.
+    + vs_bind H b Hb. vs_shape Hb. vs_bind H b1 Hb1. apply store_int_eq in Hb1. destruct Hb1 as (-> & _ & Hr).
+      vs_shape H. vs_norm. rewrite dec_tag_int257.
+      change (Z.to_nat 257) with 257%nat. rewrite load_int_app_n by (lia || exact Hr). reflexivity.
+  - (* VmCellV *)
+    vs_bind H b Hb. vs_shape Hb. vs_bind H b1 Hb1. vs_shape Hb1. vs_shape H. vs_norm.
+    rewrite dec_tag3. reflexivity.
+  - (* VmSliceV *)
+    vs_bind H b Hb. vs_shape Hb. vs_bind H cs Hcs. vs_bind H b1 Hb1.
+    destruct cs as [t cb cr]. apply store_cell_eq in Hb1. subst b1. vs_shape H. vs_norm.
+    rewrite dec_tag4. exact (cellslice_rt bits refs _ tb tr Hcs).
+  - (* VmBuilderV *)
+    vs_bind H b Hb. vs_shape Hb. vs_bind H c1 Hc1. vs_shape Hc1.
+    vs_bind H b1 Hb1. vs_shape Hb1. vs_shape H. vs_norm.
+    rewrite dec_tag5. reflexivity.
+  - (* VmTupleV *)
+    rewrite vm_depth_tuple in Hd.
+    vs_bind H b Hb. vs_shape Hb. vs_bind H b1 Hb1. apply store_uint_eq in Hb1. destruct Hb1 as (-> & _ & Hr).
+    vs_bind H ct Hct. vs_bind H b2 Hb2.
+    assert (Hel : forall x, In x l -> elem_rt (ser_value f) (dec_value f) x).
+    { intros x Hx cx Hcx. pose proof (vm_depth_list_in l x Hx) as Hdx.
+      assert (Hdf : (vm_depth x < f)%nat) by lia.
+      specialize (IH x cx [] [] Hdf Hcx). destruct cx as [t xb xr]. rewrite !app_nil_r in IH.
+      eexists. exact IH. }
+    pose proof (tuple_rt (ser_value f) (dec_value f) (S (length l)) l ct tb tr
+                  ltac:(lia) Hel Hct) as Ht.
+    destruct ct as [t cb cr]. destruct Ht as (-> & Ht).
+    apply store_cell_eq in Hb2. subst b2. vs_shape H. vs_norm.
+    rewrite dec_tag7. change (Z.to_nat 16) with 16%nat.
+    rewrite load_uint_app_n by (lia || exact Hr). cbn [bind]. rewrite Nat2Z.id.
+    rewrite Ht. reflexivity.
+  - (* VmContV *)
+    cbn [vm_depth] in Hd.
+    vs_bind H b Hb. vs_shape Hb. vs_bind H ck Hck. vs_bind H b1 Hb1.
+    pose proof (cont_roundtrip k f ck tb tr ltac:(lia) Hck) as Hk.
+    destruct ck as [t cb cr]. apply store_cell_eq in Hb1. subst b1. vs_shape H. vs_norm.
+    rewrite dec_tag6. rewrite Hk. reflexivity.
+Qed.
+
+(* ------------------------------------------------------------------ *)
+(* 7. stack lists and stacks                                           *)
+(* ------------------------------------------------------------------ *)
+
+Theorem stack_list_chain : forall fuel vs v c, ser_stack_list fuel (v :: vs) = Ok c ->
+  exists cr cv, ser_stack_list fuel vs = Ok cr /\ ser_value fuel v = Ok cv /\
+    match cv with Cell _ vb vr => c = Cell ty_ordinary vb (cr :: vr) end.
+Proof.
+  intros fuel vs v c H. cbn [ser_stack_list] in H.
+  vs_bind H cr Hcr. vs_bind H b1 Hb1. vs_shape Hb1. vs_bind H cv Hcv. vs_bind H b2 Hb2.
+  exists cr, cv. split; [exact Hcr|]. split; [exact Hcv|].
+  destruct cv as [t vb vr]. apply store_cell_eq in Hb2. subst b2. vs_shape H. vs_norm. reflexivity.
+Qed.
+
+Lemma stack_list_rt fuel : forall rl c, (forall v, In v rl -> (vm_depth v < fuel)%nat) ->
+  ser_stack_list fuel rl = Ok c -> dec_stack_list fuel (length rl) (begin_parse c) = Ok (rev rl).
+Proof.
+  induction rl as [|top rest IH]; intros c Hd H.
+  - reflexivity.
+  - apply stack_list_chain in H. destruct H as (cr & cv & Hcr & Hcv & Hc).
+    assert (Hdt : (vm_depth top < fuel)%nat) by (apply Hd; left; reflexivity).
+    pose proof (value_roundtrip top fuel cv [] [] Hdt Hcv) as Hv.
+    destruct cv as [t vb vr]. subst c. rewrite !app_nil_r in Hv.
+    cbn [length dec_stack_list begin_parse s_load_ref s_refs s_bits bind rev].
+    rewrite (IH cr) by (auto using in_cons). cbn [bind]. rewrite Hv. reflexivity.
+Qed.
+
+Theorem stack_roundtrip : forall vs fuel c,
+  (vm_depth_list vs < fuel)%nat ->
+  ser_stack fuel vs = Ok c -> dec_stack fuel (begin_parse c) = Ok vs.
+Proof.
+  intros vs fuel c Hd H. unfold ser_stack in H.
+  vs_bind H b Hb. apply store_uint_eq in Hb. destruct Hb as (-> & _ & Hr).
+  vs_bind H cl Hcl. vs_bind H b1 Hb1.
+  apply stack_list_rt in Hcl.
+  2:{ intros v Hv. apply in_rev in Hv. pose proof (vm_depth_list_in vs v Hv). lia. }
+  destruct cl as [t lb lr]. apply store_cell_eq in Hb1. subst b1. vs_shape H. vs_norm_in Hcl.
+  cbn [b_bits b_refs b_empty app begin_parse]. unfold dec_stack.
+  change (Z.to_nat 24) with 24%nat. rewrite load_uint_app_n by (lia || exact Hr). cbn [bind].
+  rewrite Nat2Z.id. rewrite rev_length, rev_involutive in Hcl. exact Hcl.
+Qed.
+
+(* ------------------------------------------------------------------ *)
+(* 8. integer forms                                                    *)
+(* ------------------------------------------------------------------ *)
+
+Lemma zbit_length_abs z : zbit_length z = zbit_length (Z.abs z).
+Proof. unfold zbit_length. destruct z; reflexivity. Qed.
+
+Lemma is_tiny_spec z : is_tiny z = (- 2 ^ 63 <? z) && (z <? 2 ^ 63).
+Proof.
+  unfold is_tiny. rewrite zbit_length_abs.
+  destruct (Z.eq_dec z 0) as [->|Hne]; [reflexivity|].
+  assert (Hpos : 0 < Z.abs z) by lia.
+  rewrite zbit_length_pos by exact Hpos.
+  pose proof (Z.log2_lt_pow2 (Z.abs z) 63 Hpos) as Hl.
+  destruct (Z.ltb_spec (Z.log2 (Z.abs z) + 1) 64) as [Hlt|Hge].
+  - assert (Ha : Z.abs z < 2 ^ 63) by (apply Hl; lia). lia.
+  - assert (Ha : ~ Z.abs z < 2 ^ 63) by (intros Ha; apply Hl in Ha; lia). lia.
+Qed.
+
+Lemma pow_63_256 : 2 ^ 63 < 2 ^ 256.
+Proof. reflexivity. Qed.
+
+Theorem int_form : forall z fuel c, ser_value (S fuel) (VmInt z) = Ok c ->
+  (- 2 ^ 256 <= z < 2 ^ 256) /\
+  match c with Cell _ bits refs =>
+    refs = [] /\
+    if (- 2 ^ 63 <? z) && (z <? 2 ^ 63) then bits = enc 8 1 ++ enc 64 z
+    else bits = enc 15 256 ++ enc 257 z
+  end.
+Proof.
+  intros z fuel c H. rewrite ser_value_S in H. rewrite <- is_tiny_spec.
+  pose proof (is_tiny_spec z) as Ht. destruct (is_tiny z).
+  - vs_bind H b Hb. vs_shape Hb. vs_bind H b1 Hb1. apply store_int_eq in Hb1. destruct Hb1 as (-> & _ & Hr).
+    vs_shape H. vs_norm. split.
+    + pose proof pow_63_256. lia.
+    + split; reflexivity.
+  - vs_bind H b Hb. vs_shape Hb. vs_bind H b1 Hb1. apply store_int_eq in Hb1. destruct Hb1 as (-> & _ & Hr).
+    vs_shape H. vs_norm. apply in_int_iff in Hr. change (257 - 1) with 256 in Hr. split; [exact Hr|].
+    split; [reflexivity|]. rewrite to_bits_enc. reflexivity.
+Qed.
